@@ -80,7 +80,7 @@ static void defer_common(void *p, uint32_t id);
 static void (*make_stub(uint32_t id, int odd))(void *)
 {
 	if (((uintptr_t) (jit + jit_off) & 1) != (unsigned) odd)
-		jit[jit_off++] = 0x90;
+		jit[jit_off++] = 0xcc;	/* int3: a call to (odd stub address - 1) must trap, not slide into the stub */
 	unsigned char *c = jit + jit_off;
 	uint64_t target = (uint64_t) (uintptr_t) defer_common;
 	c[0] = 0xbe;				/* mov $imm32,%esi */
@@ -352,6 +352,94 @@ static void *queuer_main(void *arg)
 	return NULL;
 }
 
+/* ------------------------------------------------------------------ reclaimer-only mode
+ * One queuing thread, nobody else touches the defer API, so only the background reclaimer can run
+ * what is queued.  Each round: one call wakes the reclaimer; when the reclaimer starts its batch
+ * (hook DEFER_THR_BATCH) the queuer waits a little and queues a burst that lands *while the reclaimer is
+ * inside its grace period* (too late for that batch); then it stays quiet.  The reclaimer must notice
+ * the leftovers when it next decides whether to sleep.  Stuck state = defer_thread_futex == -1 with calls
+ * pending and nothing served for 30 s: a violation; mere expiry otherwise: inconclusive. */
+static int rm_batch_started, rm_after_dec;
+static void rm_hook(int point, const void *ctx)
+{
+	(void) ctx;
+	if (point == URCU_VP_DEFER_THR_BATCH)
+		VP_STORE(rm_batch_started, VP_LOAD(rm_batch_started) + 1);
+	else if (point == URCU_VP_DEFER_WAIT_AFTER_DEC)
+		VP_STORE(rm_after_dec, VP_LOAD(rm_after_dec) + 1);
+}
+
+static void rm_queue_one(struct owner *w, int k)
+{
+	void *a = arg_pick(&w->rng);
+	struct qent *q = &w->q[w->nq];
+	q->id = ((uint32_t) w->idx << 8) | (uint32_t) k;
+	q->arg = a;
+	q->c = ts_before();
+	defer_rcu(w->stub[k], a);
+	q->enq_ret = ts_after();
+	w->nq++;
+}
+
+static uint64_t rm_rounds, rm_in_gp_window, rm_served;
+static void *reclaimer_mode_main(void *arg)
+{
+	struct owner *w = arg;
+	vp_pin(w->idx);
+	struct vp_thr *vt = vp_self();
+	phase_of[w->idx] = "register";
+	if (rcu_defer_register_thread())
+		vp_violation("defer-register-failed", "cfg=%s", cfgname);
+	long rounds = calls_per_q;
+	for (long r = 0; r < rounds && !vp_nviolations(); r++) {
+		int b0 = VP_LOAD(rm_batch_started);
+		phase_of[w->idx] = "defer_rcu";
+		rm_queue_one(w, (int) vp_rand_n(&w->rng, 6));	/* wakes the reclaimer if it sleeps */
+		/* wait for the reclaimer to start a batch (it polls 100 ms first) */
+		uint64_t t0 = vp_now_ns();
+		while (VP_LOAD(rm_batch_started) == b0 && vp_now_ns() - t0 < 5000000000ULL)
+			usleep(200);
+		int d0 = VP_LOAD(rm_after_dec);
+		if (VP_LOAD(rm_batch_started) != b0) {
+			vp_spin_cycles(20000 + vp_rand_n(&w->rng, 400000));
+			int burst = 1 + (int) vp_rand_n(&w->rng, 5);
+			for (int i = 0; i < burst; i++)
+				rm_queue_one(w, (int) vp_rand_n(&w->rng, 6));
+			if (VP_LOAD(rm_after_dec) == d0 && __atomic_load_n(&w->ninv, __ATOMIC_ACQUIRE) < w->nq - (uint64_t) burst + 0)
+				rm_in_gp_window++;	/* batch not finished, first call of the round not yet run: burst is a leftover */
+		}
+		rm_rounds++;
+		phase_of[w->idx] = "waiting-for-reclaimer";
+		t0 = vp_now_ns();
+		int served = 0;
+		while (vp_now_ns() - t0 < 30000000000ULL) {
+			if (__atomic_load_n(&w->ninv, __ATOMIC_ACQUIRE) == w->nq) { served = 1; break; }
+			usleep(500);
+		}
+		w->reclaimer_waits++;
+		__atomic_store_n(&vt->progress, vt->progress + 1, __ATOMIC_RELAXED);
+		if (served) {
+			w->reclaimer_served++;
+			rm_served++;
+			continue;
+		}
+		int32_t fx = VP_PEEK(defer_futex)();
+		unsigned long pend = VP_PEEK(defer_pending_nolock)();
+		if (fx == -1 && pend > 0)
+			vp_violation("defer-reclaimer-asleep-with-pending",
+				     "cfg=%s round %ld: %llu queued, %llu invoked after 30 s without API calls; defer_thread_futex=-1, pending=%lu (calls queued while the reclaimer was inside its grace period were never noticed)",
+				     cfgname, r, (unsigned long long) w->nq, (unsigned long long) w->ninv, pend);
+		else
+			vp_inconclusive("reclaimer did not serve the queue within 30 s but is not parked");
+		break;
+	}
+	phase_of[w->idx] = "final-unregister";
+	rcu_defer_unregister_thread();
+	check_all_mine_ran(w, "final rcu_defer_unregister_thread()");
+	phase_of[w->idx] = "done";
+	return NULL;
+}
+
 static int confirm_stuck(char *buf, size_t len)
 {
 	const char *ph = "?";
@@ -400,7 +488,7 @@ int main(int argc, char **argv)
 		struct owner *w = &own[i];
 		w->idx = i;
 		vp_rng_init(&w->rng, vp_opt.seed, 0xdef3, (uint64_t) i);
-		w->capq = (uint64_t) calls_per_q + 8;
+		w->capq = (uint64_t) calls_per_q * (!strcmp(vp_arg("mode", "mixed"), "reclaimer") ? 8 : 1) + 64;
 		w->q = calloc(w->capq, sizeof(struct qent));
 		w->inv = calloc(w->capq, sizeof(struct ient));
 		w->capbar = 4096;
@@ -418,8 +506,13 @@ int main(int argc, char **argv)
 		rthr[i].secs = malloc(rthr[i].cap * sizeof(struct sec));
 		pthread_create(&rthr[i].tid, NULL, reader_main, &rthr[i]);
 	}
+	int reclaimer_mode = !strcmp(vp_arg("mode", "mixed"), "reclaimer");
+	if (reclaimer_mode) {
+		vp_user_hook = rm_hook;
+		n_q = 1;
+	}
 	for (int i = 0; i < n_q; i++)
-		pthread_create(&own[i].tid, NULL, queuer_main, &own[i]);
+		pthread_create(&own[i].tid, NULL, reclaimer_mode ? reclaimer_mode_main : queuer_main, &own[i]);
 	for (int i = 0; i < n_q; i++)
 		pthread_join(own[i].tid, NULL);
 	VP_STORE(stop_flag, 1);
@@ -558,6 +651,13 @@ int main(int argc, char **argv)
 	vp_counter_add("defer_barrier_threads", bts);
 	vp_counter_add("reclaimer_waits", rw);
 	vp_counter_add("reclaimer_served", rs);
+	if (reclaimer_mode) {
+		vp_counter_add("reclaimer_mode_rounds", rm_rounds);
+		vp_counter_add("reclaimer_mode_burst_during_gp", rm_in_gp_window);
+		vp_sig_add("%s:reclaimer-only:burst-during-gp=%s", cfgname, rm_in_gp_window ? "yes" : "no");
+		vp_sample_add("cfg=%s reclaimer-only mode: %llu rounds, %llu bursts queued while the reclaimer was inside its grace period, %llu rounds fully served by the reclaimer alone",
+			      cfgname, (unsigned long long) rm_rounds, (unsigned long long) rm_in_gp_window, (unsigned long long) rm_served);
+	}
 #if !(VP_ASAN || VP_TSAN)
 	vp_quar_drain(&quar);
 #endif
